@@ -36,7 +36,7 @@ func TestC27(t *testing.T) {
 	r.Assume("ties in total difficulty: any maximal head is accepted")
 	r.Assume("with rule-conforming difficulties (change <= 5% per block) a fork that is shorter than the current chain can never outweigh it inside a 40-node tree, so observed reorganisations go to equal-height or higher forks; RestructChain's shorter-fork branch is unreachable with valid headers")
 	r.Assume("canonical index entries above the head height are not part of the index (unreachable through GetHeaderByHeight)")
-	trees := r.N(400, 3000)
+	trees := r.N(400, 10000)
 	maxNodes := r.N(14, 40)
 	roots := []struct {
 		net uint32
